@@ -221,24 +221,38 @@ Fixpoint sequence {A} (l : list (option A)) : option (list A) :=
 
 Definition apps_t := list (string * (json * (json -> option json))).
 
+(** First loop of mergeMap: existing fields kept, updated or dropped. *)
+Fixpoint mm_updated (apps : apps_t) (p : list (string * json)) : option (list (string * json)) :=
+  match p with
+  | [] => Some []
+  | (k, v) :: t =>
+      match mm_updated apps t with
+      | None => None
+      | Some r =>
+          match lookup k apps with
+          | None => Some ((k, v) :: r)
+          | Some (dv, f) =>
+              if is_removed dv then Some r
+              else match f v with Some x => Some ((k, x) :: r) | None => None end
+          end
+      end
+  end.
+
+(** Second loop of mergeMap: fields of the delta that [prev] does not have. *)
+Fixpoint mm_added (p : list (string * json)) (apps : apps_t) : option (list (string * json)) :=
+  match apps with
+  | [] => Some []
+  | (k, (dv, _)) :: t =>
+      match mm_added p t with
+      | None => None
+      | Some r =>
+          if has_key k p then Some r
+          else match merge_replaced dv with Some x => Some ((k, x) :: r) | None => None end
+      end
+  end.
+
 Definition merge_map (p : list (string * json)) (apps : apps_t) : option json :=
-  let updated := sequence (flat_map (fun kv =>
-                    match kv with
-                    | (k, v) =>
-                        match lookup k apps with
-                        | None => [Some (k, v)]
-                        | Some (dv, f) =>
-                            if is_removed dv then []
-                            else [match f v with Some r => Some (k, r) | None => None end]
-                        end
-                    end) p) in
-  let added := sequence (flat_map (fun e =>
-                    match e with
-                    | (k, (dv, _)) =>
-                        if has_key k p then []
-                        else [match merge_replaced dv with Some r => Some (k, r) | None => None end]
-                    end) apps) in
-  match updated, added with
+  match mm_updated apps p, mm_added p apps with
   | Some u, Some a => Some (JObj (u ++ a))
   | _, _ => None
   end.
@@ -250,29 +264,44 @@ Fixpoint nth_opt {A} (n : nat) (l : list A) : option A :=
   | _ :: t, S n' => nth_opt n' t
   end.
 
-Fixpoint apply_elems (i : nat) (l : list json) (apps : apps_t) : list (option json) :=
+Fixpoint apply_elems (i : nat) (l : list json) (apps : apps_t) : option (list json) :=
   match l with
-  | [] => []
+  | [] => Some []
   | v :: t =>
-      (match lookup (dec i) apps with
-       | Some (_, f) => f v
-       | None => Some v
-       end) :: apply_elems (S i) t apps
+      match apply_elems (S i) t apps with
+      | None => None
+      | Some r =>
+          match lookup (dec i) apps with
+          | Some (_, f) => match f v with Some x => Some (x :: r) | None => None end
+          | None => Some (v :: r)
+          end
+      end
   end.
 
 Definition valid_elem_key (len : nat) (k : string) : bool :=
   String.eqb k dollar || existsb (fun i => String.eqb (dec i) k) (seq 0 len).
+
+(** new[i] = prev[index] for index <> -1 (a Go panic on an out-of-range index is [None]). *)
+Fixpoint reorder (p : list json) (idx : list (option nat)) : option (list json) :=
+  match idx with
+  | [] => Some []
+  | i :: t =>
+      match reorder p t with
+      | None => None
+      | Some r =>
+          match i with
+          | None => Some (JNull :: r)
+          | Some j => match nth_opt j p with Some x => Some (x :: r) | None => None end
+          end
+      end
+  end.
 
 Definition merge_array (p : list json) (apps : apps_t) : option json :=
   let base :=
       match lookup dollar apps with
       | Some (JArr c, _) =>
           match uncompress c with
-          | Some idx =>
-              sequence (map (fun i => match i with
-                                      | None => Some JNull
-                                      | Some j => nth_opt j p
-                                      end) idx)
+          | Some idx => reorder p idx
           | None => None
           end
       | Some _ => None
@@ -282,7 +311,7 @@ Definition merge_array (p : list json) (apps : apps_t) : option json :=
   | None => None
   | Some b =>
       if forallb (fun e => valid_elem_key (List.length b) (fst e)) apps
-      then match sequence (apply_elems 0 b apps) with
+      then match apply_elems 0 b apps with
            | Some r => Some (JArr r)
            | None => None
            end
